@@ -145,7 +145,10 @@ def run(tier):
 
 def replay(case):
     if "sched" in case:
-        return []
+        import functools
+        from .. import scheddfs
+        obs_vs, ch = scheddfs.replay_choices(functools.partial(sched_execute, case["sched"]), case["choices"])
+        return [Violation(k, d) for k, d in sched_check(obs_vs)]
     hist = tuple(tuple(e) for e in case["history"])
     for m in models("thorough"):
         if m.name == case["model"]:
